@@ -1,0 +1,15 @@
+//go:build verif
+
+package aggregator
+
+// VerifGroupKeys returns, for every group currently held, the internal map key and the
+// typed key values recorded for it (C04). Add-only; compiled only with -tags verif.
+func (ga *GroupAggregator) VerifGroupKeys() map[string][]any {
+	ga.mu.RLock()
+	defer ga.mu.RUnlock()
+	out := make(map[string][]any, len(ga.groupKeyVals))
+	for k, v := range ga.groupKeyVals {
+		out[k] = append([]any(nil), v...)
+	}
+	return out
+}
